@@ -22,7 +22,7 @@ func stubEcrecover(hash, sig []byte) ([]byte, error) {
 // ct, V, R, S and payload) is queried with two signers for arbitrary chain ids c1 then c2 (ids of the
 // form low8 + {0,1}*2^64, so ids that agree modulo 2^64 are included): a sender is returned for signer ci only if
 // ct == ci — in particular the sender cached by the first call is never returned for another chain
-// id — and only for V in {0,1}, 0 < R < N, 0 < S <= N/2; two successful calls return the same address.
+// id — and only for V in {0,1} (V = low byte + {0,1}*2^8 + {0,1}*2^64), 0 < R < N, 0 < S <= N/2; two successful calls return the same address.
 //
 // verif:stub crypto.Ecrecover => stubEcrecover
 // verif:bounds bigbits=272
@@ -39,7 +39,16 @@ func VerifH_C03_b2() {
 	}
 	ct := chainID("txChainId")
 	// R, S below 2^16 here (zero included); the full range check is H-C03-b1's obligation
-	V, R, S := new(big.Int).SetUint64(uint64(vU8("V"))), vBigN("R", 16), vBigN("S", 16)
+	// V: an arbitrary low byte plus optional 2^8 and 2^64 (the wire form is a byte string of any width, so values
+	// that agree with a valid recovery id modulo 2^8 or modulo 2^64 are included)
+	V := new(big.Int).SetUint64(uint64(vU8("V")))
+	if vBool("VPlus256") {
+		V.Add(V, big.NewInt(256))
+	}
+	if vBool("VPlus2e64") {
+		V.Add(V, new(big.Int).Lsh(big.NewInt(1), 64))
+	}
+	R, S := vBigN("R", 16), vBigN("S", 16)
 	tx := NewTx(&QuaiTx{ChainID: ct, Nonce: vU64("nonce"), GasPrice: big.NewInt(1000), Gas: vU64("gas"), To: &to,
 		Value: big.NewInt(5), Data: vBytes("data", vLen("dataLen", 1)), V: V, R: R, S: S})
 	c1, c2 := chainID("signer1ChainId"), chainID("signer2ChainId")
@@ -49,7 +58,7 @@ func VerifH_C03_b2() {
 	vReach("queried")
 	n, _ := new(big.Int).SetString("115792089237316195423570985008687907852837564279074904382605163141518161494337", 10)
 	halfN, _ := new(big.Int).SetString("57896044618658097711785492504343953926418782139537452191302581570759080747168", 10)
-	canonical := V.Uint64() <= 1 && R.Sign() > 0 && R.Cmp(n) < 0 && S.Sign() > 0 && S.Cmp(halfN) <= 0
+	canonical := V.Cmp(big.NewInt(1)) <= 0 && R.Sign() > 0 && R.Cmp(n) < 0 && S.Sign() > 0 && S.Cmp(halfN) <= 0
 	if err1 == nil {
 		vReach("first-accepted")
 		vAssert("chainid/first-signer-matches-tx", ct.Cmp(c1) == 0)
